@@ -130,8 +130,9 @@ def write_evidence(ctx, res, nviol):
         'violations': nviol,
     }
     _validate(ev)
-    os.makedirs(os.path.join(HOME, 'evidence'), exist_ok=True)
-    path = os.path.join(HOME, 'evidence', ctx.pid + '.json')
+    evdir = os.environ.get('VERIF_EVIDENCE_DIR') or os.path.join(HOME, 'evidence')
+    os.makedirs(evdir, exist_ok=True)
+    path = os.path.join(evdir, ctx.pid + '.json')
     tmp = path + '.tmp%d' % os.getpid()
     with open(tmp, 'w') as f:
         json.dump(ev, f, indent=1, sort_keys=True, default=str)
@@ -173,7 +174,8 @@ def load_check(pid):
 def report(ctx, res, write_ev=True):
     """Write replay files + evidence, print KNOWN-FINDING / VIOLATION lines, return exit status."""
     findings = load_findings()
-    os.makedirs(os.path.join(HOME, 'replays'), exist_ok=True)
+    repdir = os.environ.get('VERIF_REPLAY_DIR') or os.path.join(HOME, 'replays')
+    os.makedirs(repdir, exist_ok=True)
     new, known = [], {}
     for v in res.violations:
         f = finding_for(findings, ctx.pid, v.key)
@@ -191,7 +193,7 @@ def report(ctx, res, write_ev=True):
             continue
         seen.add(v.key)
         h = hashlib.sha1((ctx.pid + '\0' + v.key).encode('utf-8', 'replace')).hexdigest()[:12]
-        path = os.path.join(HOME, 'replays', '%s-%s.json' % (ctx.pid, h))
+        path = os.path.join(repdir, '%s-%s.json' % (ctx.pid, h))
         with open(path, 'w') as fp:
             json.dump({'property': ctx.pid, 'key': v.key, 'what': v.what, 'tier': ctx.tier,
                        'replay': v.replay, 'tree_fingerprint': ctx.fingerprint()}, fp, indent=1, default=str)
